@@ -37,19 +37,22 @@ class UseGenerator(SimpleCodemod, NameResolutionMixin):
                     match original_node.args[0].value:
                         case cst.ListComp(elt=elt, for_in=for_in):
                             self.add_change(original_node, self.change_description)
+                            other_args = list(original_node.args[1:])
+                            # A generator expression needs no parens of its own only
+                            # when it is the sole argument of the call
+                            parens = bool(other_args)
+                            first_arg = original_node.args[0].with_changes(
+                                value=cst.GeneratorExp(
+                                    elt=elt,  # type: ignore
+                                    for_in=for_in,  # type: ignore
+                                    lpar=[cst.LeftParen()] if parens else [],
+                                    rpar=[cst.RightParen()] if parens else [],
+                                )
+                            )
                             return updated_node.with_changes(
-                                args=[
-                                    cst.Arg(
-                                        value=cst.GeneratorExp(
-                                            elt=elt,  # type: ignore
-                                            for_in=for_in,  # type: ignore
-                                            # No parens necessary since they are
-                                            # already included by the call expr itself
-                                            lpar=[],
-                                            rpar=[],
-                                        )
-                                    )
-                                ],
+                                # Keep the remaining arguments, e.g. `sum(..., start)`,
+                                # `min(..., default=0)` or `max(..., key=f)`
+                                args=[first_arg, *other_args],
                             )
 
         return original_node
